@@ -119,8 +119,10 @@ class Unlimited(object):
 class SlotLimits(object):
     """Transfer-limit policy of the socket pair.  Every send()/recv() on either end is one
     'transfer call', numbered 1,2,3.. globally.  Slot k limits call number at[k] to
-    lim[k]*stride bytes (0 = EAGAIN / nothing moved); every other call moves all it can.
-    at[k] and lim[k] are symbolic integers: the solver forks on `at[k] == callno` for the
+    lim[k]*stride bytes (0 = EAGAIN / nothing moved) when tail[k] == 0, or to all BUT the last
+    lim[k]*stride bytes when tail[k] == 1 (a short write that leaves a small remainder, e.g. the
+    head of a request goes out and part of its body stays behind); every other call moves all
+    it can.  at[k], lim[k] and tail[k] are symbolic integers: the solver forks on `at[k] == callno` for the
     calls that really happen and on `limit < available`."""
     def __init__(self, sym, slots, maxcall, lmax, stride=1):
         self.calls = 0
@@ -128,10 +130,12 @@ class SlotLimits(object):
         self.resume = bool(getattr(sym, "symbolic", False))
         self.at = []
         self.lim = []
+        self.tail = []
         self.fired = 0
         for k in range(slots):
             a = sym.int("at%d" % k, 0, maxcall)
             l = sym.int("lim%d" % k, 0, lmax)
+            self.tail.append(sym.int("tail%d" % k, 0, 1))
             if k:
                 prev = self.at[k - 1]
                 sym.assume(prev == 0 or prev < a)   # ascending, unused slots (0) first
@@ -156,6 +160,12 @@ class SlotLimits(object):
             if self.at[k] == n:
                 self.fired += 1
                 lim = self.lim[k] * self.stride
+                if self.tail[k] == 1:
+                    if lim == 0:
+                        return avail          # "all but 0 bytes": same as unlimited
+                    lim = avail - lim
+                    if lim < 0:
+                        lim = 0
                 if lim < avail:
                     return lim
                 return avail
